@@ -432,7 +432,24 @@ func e2eFillComponent(r *hx.Run) {
 		if err != nil {
 			panic(err)
 		}
-		time.Sleep(time.Duration(700+rng.Intn(300)) * time.Millisecond)
+		// three passes' worth of requests on the wire (12 frames), however long start-up takes on this machine — and
+		// at least the drawn time, at most 8 s
+		minWait := time.Duration(700+rng.Intn(300)) * time.Millisecond
+		for t0 := time.Now(); time.Since(t0) < 8*time.Second; time.Sleep(10 * time.Millisecond) {
+			if time.Since(t0) < minWait {
+				continue
+			}
+			k := 0
+			fs, _ := lab.peek()
+			for _, b := range fs {
+				if len(b) >= 42 && b[12] == 8 && b[13] == 6 && b[21] == 1 && binary.BigEndian.Uint32(b[38:42])&^3 == base {
+					k++
+				}
+			}
+			if k >= 12 {
+				break
+			}
+		}
 		p.signal(syscall.SIGINT)
 		res := p.wait(20 * time.Second)
 		lab.settle(40 * time.Millisecond)
